@@ -16,6 +16,9 @@ class _File(io.StringIO):
         if 'w' in self._mode and not self.closed:
             self._fs.files[self._path] = self.getvalue()
             self._fs.writes += 1
+            # simulated clock: one second per completed write
+            self._fs.mtime_ns[self._path] = \
+                (1_700_000_000 + self._fs.writes) * 1_000_000_000
         super().close()
 
     def __exit__(self, *a):
@@ -30,6 +33,14 @@ class _OsPath:
     def exists(self, p):
         return p in self._fs.files
 
+    isfile = exists
+
+    def getsize(self, p):
+        return self._fs.stat(p).st_size
+
+    def getmtime(self, p):
+        return self._fs.stat(p).st_mtime
+
     def __getattr__(self, name):
         return getattr(self._real, name)
 
@@ -38,6 +49,12 @@ class _Os:
     def __init__(self, fs, real):
         self.path = _OsPath(fs, real.path)
         self._real = real
+        self.stat = fs.stat
+
+    def remove(self, p):
+        if p not in self.path._fs.files:
+            raise FileNotFoundError(p)
+        del self.path._fs.files[p]
 
     def __getattr__(self, name):
         return getattr(self._real, name)
@@ -46,8 +63,20 @@ class _Os:
 class SimFS:
     def __init__(self):
         self.files = {}
+        self.mtime_ns = {}
         self.writes = 0
         self.reads = 0
+
+    def stat(self, path, *a, **kw):
+        import os
+        if path not in self.files:
+            raise FileNotFoundError(path)
+        ns = self.mtime_ns.get(path, 1_700_000_000 * 1_000_000_000)
+        size = len(self.files[path].encode())
+        sec = ns // 1_000_000_000
+        return os.stat_result((0o100644, 1, 1, 1, 0, 0, size, sec, sec, sec,
+                               float(sec), float(sec), float(sec),
+                               ns, ns, ns))
 
     def open(self, path, mode='r', *a, **kw):
         if 'r' in mode:
